@@ -47,3 +47,23 @@ Theorem plain_files_not_crash_safe_refuted :
     s0 f = Some orig /\ stopped_at s0 (files_ops f orig fmt) 0 1 true = Some st /\ ~ Inv f bk orig fmt st.
 Proof. exact files_not_crash_safe. Qed.
 Print Assumptions plain_files_not_crash_safe_refuted.
+
+(* the hypothesis of crash_safe that the three names are different paths: for EVERY file name the repaired naming
+   scheme gives a temporary and a backup name that differ from the file and from each other *)
+Theorem backup_names_distinct : forall f : fname,
+  tmp_name f <> f /\ bk_name f <> f /\ tmp_name f <> bk_name f.
+Proof. exact backup_names_distinct_lemma. Qed.
+Print Assumptions backup_names_distinct.
+
+(* before the repair the scheme named the file itself for FILE.tmp and FILE.bk (then the original is overwritten
+   before any copy exists): the genuine defect repaired in /repo *)
+Theorem backup_names_pre_refuted :
+  (exists f : fname, tmp_name_pre f = f) /\ (exists f : fname, bk_name_pre f = f).
+Proof. exact backup_names_pre_collide_lemma. Qed.
+Print Assumptions backup_names_pre_refuted.
+
+(* the repair changes the names of no other file *)
+Theorem backup_names_unchanged : forall f : fname, collides f = false ->
+  tmp_name f = tmp_name_pre f /\ bk_name f = bk_name_pre f.
+Proof. exact backup_names_unchanged_lemma. Qed.
+Print Assumptions backup_names_unchanged.
